@@ -75,6 +75,7 @@ type slotArr struct {
 type slotModel struct {
 	arrs   map[*ssa.Alloc]*slotArr
 	ranges map[ssa.Value][3]int64
+	home   map[*slotArr]*evaluator // context in which an array's stores are evaluated
 }
 
 func newSlotModel() *slotModel { return &slotModel{arrs: map[*ssa.Alloc]*slotArr{}} }
@@ -89,9 +90,15 @@ func arrayAlloc(v ssa.Value) *ssa.Alloc {
 		}
 	case *ssa.Slice:
 		if a := arrayAlloc(x.X); a != nil {
-			// only whole-array slices keep the slot numbering
+			// only whole-array slices keep the slot numbering and the length
 			if x.Low != nil {
 				if n, ok := constNum(x.Low); !ok || n != 0 {
+					return nil
+				}
+			}
+			if x.High != nil {
+				n, ok := constNum(x.High)
+				if !ok || n != a.Type().Underlying().(*types.Pointer).Elem().Underlying().(*types.Array).Len() {
 					return nil
 				}
 			}
@@ -171,7 +178,18 @@ func (m *slotModel) arrOf(v ssa.Value) *slotArr {
 						sa.Opaque = "copy destination"
 					}
 				default:
-					sa.Opaque = "passed to a call"
+					ro := false
+					if callee := u.Call.StaticCallee(); callee != nil && callee.Pkg != nil && callee.Pkg == a.Parent().Pkg {
+						ro = true
+						for i, arg := range u.Call.Args {
+							if arg == agg && (i >= len(callee.Params) || !readOnlyUses(callee.Params[i], 0)) {
+								ro = false
+							}
+						}
+					}
+					if !ro {
+						sa.Opaque = "passed to a call that may write it"
+					}
 				}
 			case *ssa.Store:
 				if u.Val == agg {
@@ -180,6 +198,8 @@ func (m *slotModel) arrOf(v ssa.Value) *slotArr {
 					sa.Opaque = "whole array overwritten"
 				}
 			case *ssa.UnOp, *ssa.DebugRef, *ssa.Range:
+			case *ssa.Return:
+				// handed to the caller: e.arr only accepts the call result when the caller reads it without writing
 			case *ssa.Phi:
 				sa.Opaque = "flows through a phi"
 			default:
@@ -189,23 +209,6 @@ func (m *slotModel) arrOf(v ssa.Value) *slotArr {
 	}
 	visitAgg(a)
 	return sa
-}
-
-// slotLoad recognises `*(&arr[idx])`.
-func (m *slotModel) slotLoad(v ssa.Value) (*slotArr, ssa.Value, bool) {
-	u, ok := v.(*ssa.UnOp)
-	if !ok || u.Op != token.MUL {
-		return nil, nil, false
-	}
-	ia, ok := u.X.(*ssa.IndexAddr)
-	if !ok {
-		return nil, nil, false
-	}
-	sa := m.arrOf(ia.X)
-	if sa == nil {
-		return nil, nil, false
-	}
-	return sa, ia.Index, true
 }
 
 // ---------------------------------------------------------------------------
@@ -271,12 +274,126 @@ func (a affine) String() string {
 type evaluator struct {
 	m   *slotModel
 	env map[ssa.Value]int64
+	// sub: parameters of an in-package helper the evaluation has *entered* from a caller (the helper's body is
+	// read as if inlined): parameter -> (actual argument, evaluator of the caller)
+	sub map[*ssa.Parameter]boundVal
+	// up: parameters of the function under analysis when it has exactly one in-package call site: consulted only
+	// where a parameter must be an array, the case index or a block offset (never for plain scalars or structs)
+	up map[*ssa.Parameter]boundVal
 	// depth guard
 	depth int
 }
 
+type boundVal struct {
+	v  ssa.Value
+	ev *evaluator
+}
+
 func (m *slotModel) eval(env map[ssa.Value]int64) *evaluator {
 	return &evaluator{m: m, env: env}
+}
+
+// enter returns the evaluator for the body of the static in-package callee of call.
+func (e *evaluator) enter(call *ssa.Call) *evaluator {
+	callee := call.Call.StaticCallee()
+	if callee == nil {
+		return nil
+	}
+	sub := map[*ssa.Parameter]boundVal{}
+	args := call.Call.Args
+	for i, p := range callee.Params {
+		if i < len(args) {
+			sub[p] = boundVal{args[i], e}
+		}
+	}
+	return &evaluator{m: e.m, sub: sub, depth: e.depth}
+}
+
+// canon follows parameter bindings (entered helpers, and the single call site of the analysed function) to the
+// value a parameter stands for.
+func (e *evaluator) canon(v ssa.Value) (ssa.Value, *evaluator) {
+	cur := e
+	for depth := 0; depth < 8; depth++ {
+		p, ok := v.(*ssa.Parameter)
+		if !ok {
+			return v, cur
+		}
+		if b, ok := cur.sub[p]; ok {
+			v, cur = b.v, b.ev
+			continue
+		}
+		if b, ok := cur.up[p]; ok {
+			v, cur = b.v, b.ev
+			continue
+		}
+		return v, cur
+	}
+	return v, cur
+}
+
+// inlinable: an in-package helper with exactly one return statement.
+func singleReturn(fn *ssa.Function) *ssa.Return {
+	if fn == nil || fn.Blocks == nil {
+		return nil
+	}
+	var ret *ssa.Return
+	for _, b := range fn.Blocks {
+		for _, in := range b.Instrs {
+			if r, ok := in.(*ssa.Return); ok {
+				if ret != nil {
+					return nil
+				}
+				ret = r
+			}
+		}
+	}
+	return ret
+}
+
+// arr resolves an aggregate operand to a slot array and the evaluator in whose context its stores are read:
+// a local array, a parameter bound to one, or the slice an in-package helper returns.
+func (e *evaluator) arr(v ssa.Value) (*slotArr, *evaluator) {
+	v, ev := e.canon(v)
+	if sa := e.m.arrOf(v); sa != nil {
+		if h, ok := e.m.home[sa]; ok {
+			return sa, h
+		}
+		if e.m.home == nil {
+			e.m.home = map[*slotArr]*evaluator{}
+		}
+		// the array's stores are read in the context that owns it, without loop-index bindings of the reader
+		h := &evaluator{m: ev.m, sub: ev.sub, up: ev.up}
+		e.m.home[sa] = h
+		return sa, h
+	}
+	if call, ok := v.(*ssa.Call); ok && e.depth < 6 {
+		callee := call.Call.StaticCallee()
+		if callee != nil && callee.Pkg != nil && call.Parent() != nil && callee.Pkg == call.Parent().Pkg {
+			if ret := singleReturn(callee); ret != nil && len(ret.Results) == 1 && readOnlyUses(call, 0) {
+				in := ev.enter(call)
+				in.depth = e.depth + 1
+				return in.arr(ret.Results[0])
+			}
+		}
+	}
+	return nil, nil
+}
+
+// slotLoad recognises `*(&arr[idx])`; idx is to be evaluated by e, the stored values by the returned evaluator.
+func (e *evaluator) slotLoad(v ssa.Value) (*slotArr, ssa.Value, bool) {
+	u, ok := v.(*ssa.UnOp)
+	if !ok || u.Op != token.MUL {
+		return nil, nil, false
+	}
+	ia, ok := u.X.(*ssa.IndexAddr)
+	if !ok {
+		return nil, nil, false
+	}
+	sa, _ := e.arr(ia.X)
+	if sa == nil {
+		return nil, nil, false
+	}
+	return sa, ia.Index, true
 }
 
 func opaque(v ssa.Value) affine { return affine{Base: baseKey{v, -1}, Coef: 1} }
@@ -293,6 +410,11 @@ func (e *evaluator) aff(v ssa.Value) affine {
 	}
 	if n, ok := constNum(v); ok {
 		return affine{Off: n}
+	}
+	if p, ok := v.(*ssa.Parameter); ok {
+		if b, ok := e.sub[p]; ok {
+			return b.ev.aff(b.v)
+		}
 	}
 	switch x := v.(type) {
 	case *ssa.Convert:
@@ -382,7 +504,7 @@ func (e *evaluator) load(u *ssa.UnOp) (affine, bool) {
 	case *ssa.FieldAddr:
 		return e.fieldAt(addr.X, addr.Field, u)
 	case *ssa.IndexAddr:
-		sa := e.m.arrOf(addr.X)
+		sa, _ := e.arr(addr.X)
 		if sa == nil || sa.Opaque != "" {
 			return affine{}, false
 		}
@@ -394,7 +516,7 @@ func (e *evaluator) load(u *ssa.UnOp) (affine, bool) {
 		if len(vals) != 1 {
 			return affine{}, false
 		}
-		return e.withEnv(vals[0].env).aff(vals[0].val), true
+		return vals[0].ev(e).aff(vals[0].val), true
 	}
 	return affine{}, false
 }
@@ -403,12 +525,12 @@ func (e *evaluator) withEnv(env map[ssa.Value]int64) *evaluator {
 	if env == nil {
 		return e
 	}
-	return &evaluator{m: e.m, env: env, depth: e.depth}
+	return &evaluator{m: e.m, env: env, sub: e.sub, up: e.up, depth: e.depth}
 }
 
 type slotVal struct {
 	val          ssa.Value
-	env          map[ssa.Value]int64 // binding under which val is to be read (nil: current)
+	home         *evaluator // evaluator under which val is to be read (context of the array + index binding)
 	store        *slotStore
 	unknownRange bool // written under a subscript whose range the model could not bound
 }
@@ -421,17 +543,26 @@ func (e *evaluator) slotVals(sa *slotArr, k int) []slotVal {
 
 // slotFieldVals: like slotVals for the stores that write field f of the element in place (f = -1: whole element).
 func (e *evaluator) slotFieldVals(sa *slotArr, k, f int) []slotVal {
+	// the context that owns the array; the reader's loop-index bindings stay visible when both live in one function
+	h := e
+	if hh, ok := e.m.home[sa]; ok && (hh.sub != nil || hh.up != nil || e.sub != nil) {
+		h = &evaluator{m: e.m, env: e.env, sub: hh.sub, up: hh.up, depth: e.depth}
+		if e.sub != nil && hh.sub == nil {
+			// reader is inside an entered helper, the array lives in the caller: the helper's bindings do not apply
+			h.env = nil
+		}
+	}
 	var out []slotVal
 	for _, s := range sa.Stores {
 		if s.Field != f {
 			continue
 		}
 		if s.K == k {
-			out = append(out, slotVal{val: s.Val, store: s})
+			out = append(out, slotVal{val: s.Val, home: h, store: s})
 		} else if s.K < 0 {
-			if cur, bound := e.env[s.Idx]; bound {
+			if cur, bound := h.env[s.Idx]; bound {
 				if int(cur) == k {
-					out = append(out, slotVal{val: s.Val, store: s})
+					out = append(out, slotVal{val: s.Val, home: h, store: s})
 				}
 				continue
 			}
@@ -440,11 +571,11 @@ func (e *evaluator) slotFieldVals(sa *slotArr, k, f int) []slotVal {
 				continue // the loop never writes this slot
 			}
 			env := map[ssa.Value]int64{}
-			for kk, vv := range e.env {
+			for kk, vv := range h.env {
 				env[kk] = vv
 			}
 			bindIndex(env, s.Idx, int64(k))
-			out = append(out, slotVal{val: s.Val, env: env, store: s, unknownRange: !known})
+			out = append(out, slotVal{val: s.Val, home: h.withEnv(env), store: s, unknownRange: !known})
 		}
 	}
 	return out
@@ -470,7 +601,7 @@ func (e *evaluator) fieldAt(base ssa.Value, f int, at ssa.Instruction) (affine, 
 		}
 		return affine{}, false
 	case *ssa.IndexAddr:
-		sa := e.m.arrOf(b.X)
+		sa, _ := e.arr(b.X)
 		if sa == nil || sa.Opaque != "" {
 			return affine{}, false
 		}
@@ -481,16 +612,24 @@ func (e *evaluator) fieldAt(base ssa.Value, f int, at ssa.Instruction) (affine, 
 		vals := e.slotVals(sa, int(idx.Off))
 		fvals := e.slotFieldVals(sa, int(idx.Off), f)
 		if len(vals) == 0 && len(fvals) == 1 {
-			return e.withEnv(fvals[0].env).aff(fvals[0].val), true
+			return fvals[0].ev(e).aff(fvals[0].val), true
 		}
 		if len(vals) != 1 || len(fvals) != 0 {
 			return affine{}, false
 		}
-		return e.withEnv(vals[0].env).structField(vals[0].val, f, at)
+		return vals[0].ev(e).structField(vals[0].val, f, at)
 	case *ssa.Parameter:
+		if bv, ok := e.sub[b]; ok {
+			return bv.ev.structFieldOfPtr(bv.v, f, at)
+		}
 		return affine{Base: baseKey{b, f}, Coef: 1}, true
 	}
 	return affine{}, false
+}
+
+// structFieldOfPtr: field f of the struct a pointer value points to (the pointer was passed to an entered helper).
+func (e *evaluator) structFieldOfPtr(ptr ssa.Value, f int, at ssa.Instruction) (affine, bool) {
+	return e.fieldAt(ptr, f, at)
 }
 
 // structField evaluates field f of a struct-typed value.
@@ -510,6 +649,9 @@ func (e *evaluator) structField(sv ssa.Value, f int, at ssa.Instruction) (affine
 			}
 		}
 	case *ssa.Parameter:
+		if bv, ok := e.sub[x]; ok {
+			return bv.ev.structField(bv.v, f, at)
+		}
 		return affine{Base: baseKey{x, f}, Coef: 1}, true
 	}
 	return affine{Base: baseKey{structSource(sv), f}, Coef: 1}, true
@@ -652,10 +794,10 @@ func (e *evaluator) elemField(sa *slotArr, k, f int) (affine, token.Pos, bool) {
 	vals := e.slotVals(sa, k)
 	fvals := e.slotFieldVals(sa, k, f)
 	if len(vals) == 0 && len(fvals) == 1 {
-		return e.withEnv(fvals[0].env).aff(fvals[0].val), fvals[0].store.Store.Pos(), true
+		return fvals[0].ev(e).aff(fvals[0].val), fvals[0].store.Store.Pos(), true
 	}
 	if len(vals) == 1 && len(fvals) == 0 {
-		r, ok := e.withEnv(vals[0].env).structField(vals[0].val, f, vals[0].store.Store)
+		r, ok := vals[0].ev(e).structField(vals[0].val, f, vals[0].store.Store)
 		return r, vals[0].store.Store.Pos(), ok
 	}
 	return affine{}, sa.Base.Pos(), false
@@ -825,17 +967,20 @@ func (m *slotModel) indexRange0(idx ssa.Value) (int64, int64, bool) {
 			phi, shift = p, a.Off
 		}
 	}
-	if phi == nil || len(phi.Edges) != 2 {
+	if phi == nil || len(phi.Edges) < 2 {
 		return 0, 0, false
 	}
 	var init int64
 	initOK, stepOK := false, false
 	for _, ed := range phi.Edges {
 		a := e.aff(ed)
-		if a.isConst() {
+		switch {
+		case a.isConst() && (!initOK || init == a.Off):
 			init, initOK = a.Off, true
-		} else if a.Base == (baseKey{phi, -1}) && a.Coef == 1 && a.Off == 1 {
+		case a.Base == (baseKey{phi, -1}) && a.Coef == 1 && a.Off == 1:
 			stepOK = true
+		default:
+			return 0, 0, false
 		}
 	}
 	if !initOK || !stepOK {
@@ -887,3 +1032,378 @@ func (m *slotModel) indexRange0(idx ssa.Value) (int64, int64, bool) {
 	return lo, hi, true
 }
 
+// ev returns the evaluator under which the slot value is to be read.
+func (v slotVal) ev(e *evaluator) *evaluator {
+	if v.home != nil {
+		return v.home
+	}
+	return e
+}
+
+// ---------------------------------------------------------------------------
+// dead default stores
+
+// loadsOf returns every load `*(&arr[idx])` of the array (through its slices), with the index operand.
+func loadsOf(sa *slotArr) []*ssa.UnOp {
+	var out []*ssa.UnOp
+	var visit func(agg ssa.Value)
+	visit = func(agg ssa.Value) {
+		for _, r := range ssau.Refs(agg) {
+			switch u := r.(type) {
+			case *ssa.IndexAddr:
+				if u.X != agg {
+					continue
+				}
+				for _, rr := range ssau.Refs(u) {
+					switch w := rr.(type) {
+					case *ssa.UnOp:
+						if w.Op == token.MUL {
+							out = append(out, w)
+						}
+					case *ssa.FieldAddr:
+						for _, r3 := range ssau.Refs(w) {
+							if ld, ok := r3.(*ssa.UnOp); ok && ld.Op == token.MUL {
+								out = append(out, ld)
+							}
+						}
+					}
+				}
+			case *ssa.Slice:
+				if u.X == agg && arrayAlloc(u) == sa.Base {
+					visit(u)
+				}
+			}
+		}
+	}
+	visit(sa.Base)
+	return out
+}
+
+// overwrittenBefore reports whether the constant-index store st (slot k) can never be the value a load of the
+// array sees, because a loop that writes every slot runs in between on every path:
+//
+//	st dominates the loop and the load; the loop's index covers k; the variable-index store dominates every
+//	latch (each completed iteration wrote its slot); and every way out of the loop other than its own
+//	exhausted-range test sets a boolean that is tested right after the loop and sends control somewhere from
+//	which the load cannot be reached without passing st again.
+func (m *slotModel) overwrittenBefore(sa *slotArr, st *slotStore, ld *ssa.UnOp) bool {
+	if st.K < 0 {
+		return false
+	}
+	fn := st.Store.Parent()
+	for _, v := range sa.Stores {
+		if v.K >= 0 || v.Field != st.Field {
+			continue
+		}
+		lo, hi, ok := m.indexRange(v.Idx)
+		if !ok || int64(st.K) < lo || int64(st.K) >= hi {
+			continue
+		}
+		var loop *ssau.Loop
+		for _, l := range ssau.Loops(fn) {
+			if l.Blocks[v.Store.Block()] && (loop == nil || len(l.Blocks) < len(loop.Blocks)) {
+				// innermost loop containing the store whose header carries the index
+				loop = l
+			}
+		}
+		if loop == nil || loop.Blocks[st.Store.Block()] || loop.Blocks[ld.Block()] {
+			continue
+		}
+		if !st.Store.Block().Dominates(loop.Header) || !loop.Header.Dominates(ld.Block()) {
+			continue
+		}
+		if !m.loopCompletesBefore(loop, v.Store.Block(), ld.Block()) {
+			continue
+		}
+		okExits := true
+		if okExits {
+			return true
+		}
+	}
+	return false
+}
+
+// abnormalExitKilled: the edge from→to leaves the loop early; following unconditional jumps it reaches a block
+// whose terminating `if` tests a boolean phi that is a constant on this path, and the branch taken for that
+// constant cannot reach `target` without passing `again` (the default store) first.
+func abnormalExitKilled(from, to, again, target *ssa.BasicBlock) bool {
+	pred, b := from, to
+	for depth := 0; depth < 6; depth++ {
+		if len(b.Instrs) == 0 {
+			return false
+		}
+		if iff, ok := b.Instrs[len(b.Instrs)-1].(*ssa.If); ok {
+			cond := iff.Cond
+			neg := false
+			if u, ok := cond.(*ssa.UnOp); ok && u.Op == token.NOT {
+				cond, neg = u.X, true
+			}
+			phi, ok := cond.(*ssa.Phi)
+			if !ok || phi.Block() != b {
+				return false
+			}
+			for i, p := range b.Preds {
+				if p != pred {
+					continue
+				}
+				c, ok := phi.Edges[i].(*ssa.Const)
+				if !ok || c.Value == nil {
+					return false
+				}
+				val := c.Value.String() == "true"
+				if neg {
+					val = !val
+				}
+				next := b.Succs[1]
+				if val {
+					next = b.Succs[0]
+				}
+				if next == target {
+					return false
+				}
+				return !reachesVia(next, target, again)
+			}
+			return false
+		}
+		if _, ok := b.Instrs[len(b.Instrs)-1].(*ssa.Jump); ok && len(b.Succs) == 1 {
+			pred, b = b, b.Succs[0]
+			continue
+		}
+		return false
+	}
+	return false
+}
+
+// reachesVia: target reachable from start without entering `avoid`.
+func reachesVia(start, target, avoid *ssa.BasicBlock) bool {
+	if start == target {
+		return true
+	}
+	if start == avoid {
+		return false
+	}
+	seen := map[*ssa.BasicBlock]bool{start: true}
+	stack := []*ssa.BasicBlock{start}
+	for len(stack) > 0 {
+		n := stack[len(stack)-1]
+		stack = stack[:len(stack)-1]
+		for _, s := range n.Succs {
+			if s == target {
+				return true
+			}
+			if s == avoid || seen[s] {
+				continue
+			}
+			seen[s] = true
+			stack = append(stack, s)
+		}
+	}
+	return false
+}
+
+// deadDefault: the constant-index store is overwritten before every load of the array that could see it.
+func (m *slotModel) deadDefault(sa *slotArr, st *slotStore) bool {
+	loads := loadsOf(sa)
+	if len(loads) == 0 {
+		return false
+	}
+	for _, ld := range loads {
+		if !ssau.CanFollow(st.Store, ld) {
+			continue
+		}
+		if !m.overwrittenBefore(sa, st, ld) {
+			return false
+		}
+	}
+	return true
+}
+
+// loopCompletesBefore: control only reaches `target` (a block after the loop) when every iteration of the
+// loop's range executed the block `body` (the per-slot store):
+//
+//   - every exit other than the header's exhausted-range test sets a boolean that is tested after the loop
+//     and leads somewhere from which target is unreachable without entering the loop afresh, and
+//   - every iteration that reaches a latch passed `body`, or cleared a flag (a loop-carried boolean that
+//     starts at one constant, is only ever assigned the other, and is tested after the loop with the
+//     cleared branch leading away from target).
+func (m *slotModel) loopCompletesBefore(loop *ssau.Loop, body, target *ssa.BasicBlock) bool {
+	var pre *ssa.BasicBlock
+	for _, p := range loop.Header.Preds {
+		if !loop.Blocks[p] {
+			if pre != nil {
+				return false
+			}
+			pre = p
+		}
+	}
+	if pre == nil {
+		return false
+	}
+	for b := range loop.Blocks {
+		for _, w := range b.Succs {
+			if loop.Blocks[w] || b == loop.Header {
+				continue
+			}
+			if !abnormalExitKilled(b, w, pre, target) {
+				return false
+			}
+		}
+	}
+	allLatches := true
+	for _, lt := range loop.Latch {
+		if !body.Dominates(lt) {
+			allLatches = false
+		}
+	}
+	if allLatches {
+		return true
+	}
+	return flagGuardsSkippedIterations(loop, body, pre, target)
+}
+
+func flagGuardsSkippedIterations(loop *ssau.Loop, body, pre, target *ssa.BasicBlock) bool {
+	// the block after the normal exit, following jumps, ends in `if flag`
+	var exit *ssa.BasicBlock
+	for _, w := range loop.Header.Succs {
+		if !loop.Blocks[w] {
+			exit = w
+		}
+	}
+	b := exit
+	for depth := 0; depth < 6 && b != nil; depth++ {
+		if len(b.Instrs) == 0 {
+			return false
+		}
+		if iff, ok := b.Instrs[len(b.Instrs)-1].(*ssa.If); ok {
+			cond := iff.Cond
+			neg := false
+			if u, ok := cond.(*ssa.UnOp); ok && u.Op == token.NOT {
+				cond, neg = u.X, true
+			}
+			// with a `break` in the loop the tested value is a phi in the exit block whose normal-exit edge is the header flag
+			if p2, ok := cond.(*ssa.Phi); ok && p2.Block() == b {
+				for i, pr := range b.Preds {
+					if pr == loop.Header || (len(pr.Succs) == 1 && pr != b && len(pr.Preds) == 1 && pr.Preds[0] == loop.Header) {
+						cond = p2.Edges[i]
+					}
+				}
+			}
+			phi, ok := cond.(*ssa.Phi)
+			if !ok || phi.Block() != loop.Header {
+				return false
+			}
+			var initVal *bool
+			for i, pr := range loop.Header.Preds {
+				ed := phi.Edges[i]
+				if !loop.Blocks[pr] {
+					c, ok := ed.(*ssa.Const)
+					if !ok || c.Value == nil {
+						return false
+					}
+					v := c.Value.String() == "true"
+					initVal = &v
+				}
+			}
+			if initVal == nil {
+				return false
+			}
+			for i, pr := range loop.Header.Preds {
+				if !loop.Blocks[pr] {
+					continue
+				}
+				ed := phi.Edges[i]
+				if c, ok := ed.(*ssa.Const); ok && c.Value != nil {
+					if (c.Value.String() == "true") == *initVal {
+						return false // the flag is re-armed inside the loop
+					}
+					continue // cleared on this path
+				}
+				// unchanged on this path: the iteration must have executed the body; the value may be the header
+				// phi itself or a phi merging it with itself further down
+				if !flagUnchanged(ed, phi, *initVal) || !body.Dominates(pr) {
+					return false
+				}
+			}
+			still := *initVal
+			if neg {
+				still = !still
+			}
+			cleared := b.Succs[0]
+			if still {
+				cleared = b.Succs[1]
+			}
+			return cleared != target && !reachesVia(cleared, target, pre)
+		}
+		if _, ok := b.Instrs[len(b.Instrs)-1].(*ssa.Jump); ok && len(b.Succs) == 1 {
+			b = b.Succs[0]
+			continue
+		}
+		return false
+	}
+	return false
+}
+
+// flagUnchanged: v is the loop-carried flag phi itself (possibly through phis that only merge it with the cleared constant
+// on paths that do not reach this edge — conservatively: v == phi).
+func flagUnchanged(v ssa.Value, phi *ssa.Phi, initVal bool) bool {
+	return v == ssa.Value(phi)
+}
+
+// readOnlyUses: the slice value v is only read (indexed loads, len, re-slicing, handed on to read-only helpers).
+func readOnlyUses(v ssa.Value, depth int) bool {
+	if depth > 3 {
+		return false
+	}
+	for _, r := range ssau.Refs(v) {
+		switch u := r.(type) {
+		case *ssa.IndexAddr:
+			if u.X != v {
+				continue
+			}
+			for _, rr := range ssau.Refs(u) {
+				switch w := rr.(type) {
+				case *ssa.UnOp, *ssa.DebugRef:
+				case *ssa.FieldAddr:
+					for _, r3 := range ssau.Refs(w) {
+						switch r3.(type) {
+						case *ssa.UnOp, *ssa.DebugRef:
+						default:
+							return false
+						}
+					}
+				default:
+					return false
+				}
+			}
+		case *ssa.Slice:
+			if !readOnlyUses(u, depth+1) {
+				return false
+			}
+		case *ssa.Call:
+			switch ssau.Builtin(u) {
+			case "len", "cap":
+				continue
+			case "append", "copy":
+				if len(u.Call.Args) > 0 && u.Call.Args[0] == v {
+					return false
+				}
+				continue
+			}
+			callee := u.Call.StaticCallee()
+			if callee == nil || callee.Blocks == nil {
+				return false
+			}
+			for i, a := range u.Call.Args {
+				if a == v && (i >= len(callee.Params) || !readOnlyUses(callee.Params[i], depth+1)) {
+					return false
+				}
+			}
+		case *ssa.DebugRef, *ssa.Range:
+		case *ssa.Lookup:
+			// string/map lookups do not apply to slices; ignore
+		default:
+			return false
+		}
+	}
+	return true
+}
